@@ -1004,3 +1004,7 @@ Section Core.
     - intros _. cbn [dcost fold_right d_ent]. lia.
   Qed.
 End Core.
+
+Ltac eff_split := unfold eff; split; [|split; [|split; [|split]]].
+Ltac mstep_split := unfold mstep; split; [|split; [|split; [|split; [|split; [|split]]]]].
+Ltac ueff_split := unfold ueff; split; [|split; [|split; [|split; [|split]]]].
